@@ -933,7 +933,7 @@ class SqlInterp:
             if m == "execute":
                 self._rec("execute", args[0] if args else None, e)
                 return Result(args[0] if args else Opaque("?"), "execute")
-            if m == "add_all":
+            if m in ("add_all", "bulk_save_objects"):
                 self._rec("add_all", args[0] if args else None, e)
                 return Lit(None)
             if m == "add":
